@@ -8,7 +8,7 @@ PROP_MODULES = ['Jwt.Props.C13']
 PROP_FILES = ['Jwt/Props/C13.lean']
 GENERATED_FACT_THEOREMS = 0
 CHECKER_CMD = "cd lean && lake build Jwt.Props.C13 && lake env lean <generated #print axioms file>"
-LEVEL_TEXT = ("Lean theorems: one call's return value is independent of the prior error state and leaves the configuration unchanged; by induction over any history of verify/error_clear calls every verdict equals a fresh identically configured checker's. Tied to the code by exhaustive call sequences over an 11-token alphabet + error_clear, each verdict compared with a fresh checker's on the real library.")
+LEVEL_TEXT = ("Lean theorems: one call's return value is independent of the prior error state and leaves the configuration unchanged; by induction over any history of verify/error_clear calls every verdict equals a fresh identically configured checker's; the same for generate on builders (token and configuration). Tied to the code by exhaustive call sequences over an 11-token alphabet + error_clear, each verdict compared with a fresh checker's on the real library.")
 ASSUMPTIONS = F.COMMON_ASSUME + []
 TRUSTED_BASE = F.COMMON_TRUSTED
 replay = F.replay
@@ -18,4 +18,6 @@ def run(ctx, model_ok, deep=False):
     F.run_suites(ctx, model_ok, deep, [
         ("reuse", S.reuse_suite, S.falsify_reuse,
          "all sequences of length 1-2 and 500 of length 3 (quick) / all to length 4 (thorough) over {valid, badsig, expired, nodot, onedot, badhdr, noalg, badpay, unsigned, NULL, empty, error_clear}, plus random sequences of length 5-60; reference = same token on a fresh checker", False),
+        ("builder-reuse", S.builder_reuse_suite, S.falsify_builder_reuse,
+         "all sequences to length 3 (quick) / 4 (thorough) over {ok, callback fails, weak key, callback selects inadmissible key/alg, unsigned, error_clear} + random longer ones; each generate compared with a fresh identically configured builder", False),
     ])
